@@ -230,6 +230,11 @@ def header(origin):
 #   len, min, max, enumerate, bool, not      Py.len, Py.imin, Py.imax, Py.enumerate, truthiness by type
 #   c == "\n", c in " \t", s != "\n"         code-point comparisons / membership in a literal list
 #   s.lstrip(" \t"), "\n".join(xs)           Py.lstrip s [32, 9], Py.join [10] xs   (explicit character sets only)
+#   try: S except C1 / (C1, C2): H [else]   the body is a sub-computation; a raised class NAMED by a handler runs it (first match),
+#                                            any other propagates; classes are matched by name (no subclassing)
+#   methods (cls=...)                        self.X -> variable self_X; attributes listed in self_state are returned with the result
+#   sorted(xs, key=lambda a: k)              Py.sortedBy lt (fun a => k) xs (stable insertion sort; `lt` from the spec)
+#   zip, all/any(<generator>)                List.zip, List.all / List.any (pure bodies)
 #   f(...), obj.m(...), isinstance, attrs    only through the tables of the spec (`externals`, `isinstance_map`, `attrs`,
 #                                            `consts`); an external marked partial is Except-valued
 #
@@ -317,11 +322,14 @@ def _codes(s):
 
 class Tr:
     def __init__(self, lean_name, env, ret_ty, externals=None, isinstance_map=None, attrs=None, consts=None, fuel=None,
-                 generic_exc=False):
+                 generic_exc=False, whole=None):
         self.name = lean_name
         # generic_exc: the function is abstracted over the exception type `ε` with `exc : String → ε` naming built-in classes
         self.generic = generic_exc
         self.full_ret_ty = None         # methods: (result, mutated attributes...)
+        # whole-expression patterns of the spec: source text of an expression -> (lean text, type[, partial]); for
+        # operations on dynamically typed values (`x is None`, `n != x`, `not x`) whose meaning the spec supplies
+        self.whole = whole or {}
         self.exc_ty = "ε" if generic_exc else "String"
         self.env = dict(env)            # python variable -> type
         self.ret_ty = ret_ty
@@ -407,8 +415,19 @@ class Tr:
         return E("(let %s := %s; %s)" % (v, a.text, body), BOOL, True)
 
     # ---- expressions -----------------------------------------------------
+    def whole_pattern(self, e):
+        src = ast.unparse(e)
+        if src in self.whole:
+            w = self.whole[src]
+            self.constructs.add("expression read through the spec's table: " + src)
+            return E(w[0], w[1], len(w) > 2 and w[2])
+        return None
+
     def test(self, e):
         """an expression in boolean context"""
+        w = self.whole_pattern(e)
+        if w is not None and w.ty == BOOL:
+            return w
         if isinstance(e, ast.BoolOp):
             is_and = isinstance(e.op, ast.And)
             acc = self.test(e.values[-1])
@@ -429,6 +448,9 @@ class Tr:
         return E("(%s : List Nat)" % _codes(s), TEXT)
 
     def expr(self, e, want=None):
+        w = self.whole_pattern(e)
+        if w is not None:
+            return w
         if isinstance(e, ast.Constant):
             if isinstance(e.value, bool):
                 return E("true" if e.value else "false", BOOL)
@@ -606,6 +628,17 @@ class Tr:
         src = ast.unparse(fn)
         if src in self.externals:
             ext = self.externals[src]
+            if isinstance(ext, (list, tuple)):   # alternatives (lean, [argument types], result type, partial): first match
+                if e.keywords:
+                    raise Untranslatable("keyword arguments of " + src)
+                es = [self.expr(a) for a in e.args]
+                for lean, argtys, ret, partial in ext:
+                    if [x.ty for x in es] == list(argtys):
+                        r = self.lift(es, lambda ts: ("(%s)" % " ".join([lean] + ts), ret))
+                        if partial and r.partial:
+                            raise Untranslatable("partial operands of " + src)
+                        return E(r.text, ret, partial or r.partial)
+                raise Untranslatable("no reading of %s for argument types %s" % (src, [lean_ty(x.ty) for x in es]))
             args = list(e.args)
             kws = {k.arg: k.value for k in e.keywords}
             if set(kws) - set(ext.kw):
@@ -811,7 +844,8 @@ class Tr:
             v = self.fresh() if c.partial else None
             text = "(if %s then\n%s\nelse\n%s)" % (v or c.text, _ind(self.block(s.body, cont)), _ind(self.block(s.orelse, cont)))
             return self.bind(c, v, text) if c.partial else text
-        if isinstance(s, ast.Try) and not s.finalbody and len(s.handlers) == 1 and len(s.body) == 1:
+        if isinstance(s, ast.Try) and not s.finalbody and s.handlers and (
+                len(s.body) == 1 or all(len(h.body) == 1 and isinstance(h.body[0], ast.Raise) for h in s.handlers)):
             return self.try_stmt(s, cont)
         if isinstance(s, ast.For) and not s.orelse:
             return self.for_loop(s, cont)
@@ -932,14 +966,15 @@ class Tr:
         try: <ONE statement> except Cls / (Cls, ...): HANDLER [else: ELSE]
         The body is a sub-computation (Flow): it falls through with the variables it assigned, returns, or raises; a raised
         class listed by the handler runs HANDLER (in the enclosing context: it may break / continue / return / raise),
-        any other propagates. One statement only: no assignment can be half-done when the exception is raised.
+        any other propagates. One statement only (no assignment can be half-done when the exception is raised), or several
+        when every handler is a single `raise` (nothing can observe the half-done assignments). Exception classes are
+        matched BY NAME: subclass relations between exception classes are not modelled.
         """
         if self.generic:
             raise Untranslatable("try/except in a function abstracted over its exception type")
-        h = s.handlers[0]
-        if h.type is None or h.name is not None:
-            raise Untranslatable("bare except / except ... as name")
-        classes = [ast.unparse(c) for c in (h.type.elts if isinstance(h.type, ast.Tuple) else [h.type])]
+        for h in s.handlers:
+            if h.type is None or h.name is not None:
+                raise Untranslatable("bare except / except ... as name")
         assigned = self._assigned(s.body)
         saved = (self.in_loop, getattr(self, "_brk", None), getattr(self, "_cnt", None))
         self.in_loop, self._brk, self._cnt = True, None, None
@@ -953,11 +988,15 @@ class Tr:
         self.in_loop, self._brk, self._cnt = saved
         vs = holder.get("vars", [])
         self.constructs.add("try/except <classes> (one-statement body) -> match on the raised class name")
-        test = " || ".join('e__ == "%s"' % c for c in classes)
         after = self.block(list(s.orelse), cont) if s.orelse else cont()
-        return ("(match (%s : Py.Flow String %s %s) with\n  | .ret r__ => %s\n  | .raise e__ =>\n    (if %s then\n%s\n    else %s)\n  | .fall %s =>\n%s)"
-                % (body, _atom(self._state_ty(vs)), _atom(lean_ty(self.full_ret_ty or self.ret_ty)), self.ret("r__"), test,
-                   _ind(self.block(h.body, cont), 6), self.err("e__"), self._pat(vs), _ind(after, 4)))
+        handlers = self.err("e__")          # no handler matches: the exception propagates
+        for h in reversed(s.handlers):      # first matching handler wins
+            classes = [ast.unparse(c) for c in (h.type.elts if isinstance(h.type, ast.Tuple) else [h.type])]
+            test = " || ".join('e__ == "%s"' % c for c in classes)
+            handlers = "(if %s then\n%s\nelse\n%s)" % (test, _ind(self.block(h.body, cont)), _ind(handlers))
+        return ("(match (%s : Py.Flow String %s %s) with\n  | .ret r__ => %s\n  | .raise e__ =>\n%s\n  | .fall %s =>\n%s)"
+                % (body, _atom(self._state_ty(vs)), _atom(lean_ty(self.full_ret_ty or self.ret_ty)), self.ret("r__"),
+                   _ind(handlers, 4), self._pat(vs), _ind(after, 4)))
 
     def loop_break(self):
         if self._brk is None:
